@@ -15,32 +15,50 @@ open Galaxy.Gc Galaxy.Generated.Gc
 
 /-! ## pins on the regenerated source facts -/
 
-/-- Source pin: the docker states that count as gone are exactly "exited" and "dead". -/
-theorem fact_states : exitedStates = ["exited", "dead"] := by decide
+/-- Source pin: the docker states that count as gone are exactly "exited" and "dead" (the translator sorts them). -/
+theorem fact_states : exitedStates = ["dead", "exited"] := by decide
 
-/-- Source pin: shouldCleanup answers `true` on exactly these five paths (docker: not-found / exited-or-dead;
-    containerd: gRPC NotFound / not-ready and pod gone / not-ready and no waiting or running container), every one
-    that lies on an error branch is under a not-found test, and the function falls through to `return false`
+set_option maxRecDepth 8192 in
+/-- Source pin: shouldCleanup answers `true` on exactly these five paths, each given as the SET of conditions under
+    which the `return true` is reached in the normalised function (DOCKER / CRI = the inspect call, POD = the pod lookup,
+    #0 / #1 = value / error result; local names, nesting vs guard clauses, De Morgan and the order of the branches do not
+    matter): containerd — not-ready sandbox whose pod is gone; not-ready sandbox whose pod is there (vetoed inside the
+    loop by a waiting or running container, `cleanupVetoes`); gRPC NotFound; docker — state exited / dead; not found.
+    Every path reached after a failed call is under a not-found test and the function falls through to `return false`
     ("every non-not-found error path returns false"). -/
 theorem fact_fail_safe :
     shouldCleanupFailsSafe = true ∧ stateTestGuardsNilState = true ∧ containerdEnv = "CONTAINERD_HOST" ∧
     cleanupTruePaths = [
-      ["os.Getenv(\"CONTAINERD_HOST\") != \"\"",
-       "c, err := gc.dockerCli.ContainedInspectContainer(cid); err != nil",
-       "stausErr, ok := status.FromError(err); ok",
-       "stausErr.Code() == codes.NotFound"],
-      ["os.Getenv(\"CONTAINERD_HOST\") != \"\"",
-       "!(c, err := gc.dockerCli.ContainedInspectContainer(cid); err != nil)",
-       "c != nil && (c.State == criapi.PodSandboxState_SANDBOX_NOTREADY)",
-       "err != nil",
-       "apierrors.IsNotFound(err)"],
-      ["os.Getenv(\"CONTAINERD_HOST\") != \"\"",
-       "!(c, err := gc.dockerCli.ContainedInspectContainer(cid); err != nil)",
-       "c != nil && (c.State == criapi.PodSandboxState_SANDBOX_NOTREADY)"],
-      ["c, err := gc.dockerCli.DockerInspectContainer(cid); err != nil",
-       "_, ok := err.(docker.ContainerNotFoundError); ok"],
-      ["!(c, err := gc.dockerCli.DockerInspectContainer(cid); err != nil)",
-       "c.State != nil && (c.State.Status == ContainerExited || c.State.Status == ContainerDead)"]] := by
+      ["CRI#0 != nil",
+       "CRI#0.State == criapi.PodSandboxState_SANDBOX_NOTREADY",
+       "CRI#1 == nil",
+       "POD#1 != nil",
+       "apierrors.IsNotFound(POD#1)",
+       "os.Getenv(\"CONTAINERD_HOST\") != \"\""],
+      ["CRI#0 != nil",
+       "CRI#0.State == criapi.PodSandboxState_SANDBOX_NOTREADY",
+       "CRI#1 == nil",
+       "POD#1 == nil",
+       "os.Getenv(\"CONTAINERD_HOST\") != \"\""],
+      ["CRI#1 != nil",
+       "os.Getenv(\"CONTAINERD_HOST\") != \"\"",
+       "status.FromError(CRI#1)#0.Code() == codes.NotFound",
+       "status.FromError(CRI#1)#1"],
+      ["DOCKER#0.State != nil",
+       "DOCKER#1 == nil",
+       "or(DOCKER#0.State.Status == ContainerDead | DOCKER#0.State.Status == ContainerExited)",
+       "os.Getenv(\"CONTAINERD_HOST\") == \"\""],
+      ["DOCKER#1 != nil",
+       "DOCKER#1.(docker.ContainerNotFoundError)#1",
+       "os.Getenv(\"CONTAINERD_HOST\") == \"\""]] ∧
+    cleanupVetoes = [
+      ["range POD#0.Status.ContainerStatuses",
+       "CRI#0 != nil",
+       "CRI#0.State == criapi.PodSandboxState_SANDBOX_NOTREADY",
+       "CRI#1 == nil",
+       "POD#1 == nil",
+       "or(elem(POD#0.Status.ContainerStatuses).State.Running != nil | elem(POD#0.Status.ContainerStatuses).State.Waiting != nil)",
+       "os.Getenv(\"CONTAINERD_HOST\") != \"\""]] := by
   decide
 
 /-- Source pin: the shape of the two collectors (what they skip, how the container id is found, that the only
